@@ -1817,7 +1817,7 @@ extern int32_t tls13ParseSignatureAlgorithms(ssl_t *ssl,
         const unsigned char **c,
         psSize_t len,
         psBool_t isCert);
-extern psSize_t tls13ParseSupportedVersions(ssl_t *ssl,
+extern int32_t tls13ParseSupportedVersions(ssl_t *ssl,
         const unsigned char **c,
         psSize_t len);
 extern psBool_t tls13ExtensionAllowedInMessage(ssl_t *ssl,
